@@ -446,6 +446,43 @@ TRIMMERS = ("trim_matches", "trim_start_matches", "trim_end_matches", "trim", "t
             "replace", "replacen", "split_off", "truncate", "retain")
 
 
+WRAPPING = re.compile(r"(<time::(time::Time|date::Date|primitive_date_time::PrimitiveDateTime|offset_date_time::OffsetDateTime) as core::ops::arith::(Add|Sub)(Assign)?<)|"
+                      r"(::(wrapping_[a-z_]+|overflowing_[a-z_]+|rem_euclid|unchecked_[a-z_]+)$)|(core::intrinsics::(wrapping|unchecked)_)")
+
+
+def rule_wrap(ctx, rep):
+    """A literal that cannot be represented is rejected - so nothing on the way from token text to the DSL value may be arithmetic that
+    wraps around by design: `time::Time + Duration` wraps at midnight (23:59:60 becomes 00:00:00), `wrapping_*`, `overflowing_*`.
+    (Casts are R-C09-cast's subject, checked arithmetic that panics is R-C09-arith's.)"""
+    r = rep.rule("R-C09-wrap", "no wrap-around arithmetic on literal paths: the grammar's literal actions and dsl::{common,time} call no `Time`/`Date` "
+                               "`+`/`-` (modulo a day) and no wrapping_*/overflowing_* function", floor=100, floor_what="calls scanned on literal paths")
+    n = 0
+    found = 0
+    for b in sorted(ctx.prog.bodies.values(), key=lambda x: x.id):
+        fn = norm(b.id)
+        lit = fn.startswith(("ironplc_dsl::common::", "ironplc_dsl::time::", "<ironplc_dsl::common::", "<ironplc_dsl::time::")) or \
+            (fn.startswith(GRAM) and re.search(r"__parse_(duration|interval|days|hours|minutes|seconds|milliseconds|fixed_point|time_of_day|daytime|day_|date|year|month|day|"
+                                               r"integer|signed_integer|binary_integer|octal_integer|hex_integer|real_literal|bit_string|boolean_literal|direct_variable|location)", fn))
+        if not lit or "::test" in fn:
+            continue
+        cnt = {}
+        for c in sorted(b.calls(), key=lambda c: (c.loc[0], c.loc[1])):
+            n += 1
+            cal = c.callee or c.u or ""
+            if WRAPPING.search(cal):
+                m = loc_macro(c.loc)
+                if m and str(m[0]).startswith("Derive:"):
+                    continue
+                nm = cal.split("::")[-1]
+                k = cnt[nm] = cnt.get(nm, 0) + 1
+                found += 1
+                r.finding("%s|%s#%d" % (fn.replace("ironplc_parser::parser::plc_parser::", ""), "Time/Date " + nm if "time::" in cal and "<" in cal else nm, k), loc_str(b.f, c.loc),
+                          "%s wraps around instead of failing: an out-of-range component (seconds >= 60, a day count past the calendar) silently becomes another value" % cal[:90])
+    if not found:
+        r.ok("literal paths|no wrap-around arithmetic", None, "%d calls scanned" % n)
+    r.count_override = n
+
+
 def rule_trim(ctx, rep, rid="R-C09-trim"):
     r = rep.rule(rid, "inside the grammar, literal text taken from a token is never passed through a content-dependent trimming/replacing "
                                "function (trim*, strip_*, replace*, retain): such calls remove or alter characters that belong to the literal's value",
@@ -495,6 +532,7 @@ def run(ctx, rep):
     rule_addr(ctx, rep)
     rule_fallible(ctx, rep)
     rule_trim(ctx, rep)
+    rule_wrap(ctx, rep)
     from rules import c09_scale
     c09_scale.run(ctx, rep)
     from rules import c03_errdrop
